@@ -1,12 +1,15 @@
+\* The design as found (negative control, not run by ./check): TLC refutes SilentBackendBounded, OutcomeIsOwn and
+\* TransportFollowsOptions (HandshakeBound), IdleBounded (UnixKeepalive), VerifiedUnlessOptedOut, HealthAgreesWithRule
+\* and OutcomeIsOwn (HealthTrust), SNIIsUpstreamName (UpgradeSNI). Run with -continue to see them all.
 SPECIFICATION Spec
 CONSTANTS
   Spaces = {"verify", "opts", "conn", "silent", "relay"}
   OptLen = 2
   Wide = FALSE
-  HandshakeBound = "all"
-  UnixKeepalive = "honoured"
-  HealthTrust = "rule"
-  UpgradeSNI = "always"
+  HandshakeBound = "custom"
+  UnixKeepalive = "ignored"
+  HealthTrust = "system"
+  UpgradeSNI = "verified"
 INVARIANTS
   TypeOK
   VerifiedUnlessOptedOut
@@ -23,5 +26,4 @@ INVARIANTS
   HealthAgreesWithRule
   RefusedOnlyForCause
   AcceptedUnlessCause
-  Emit
 CHECK_DEADLOCK FALSE
